@@ -127,7 +127,15 @@ func drawRec(rt *rapid.T, c *stats.Case, u *gen.Universe, ch *gen.Chain, num uin
 		evCount += uint64(len(r.Events))
 		txs, rcs = append(txs, tx), append(rcs, r)
 	}
-	h := arbitraryHeader(rt, num, uint64(ntx), evCount)
+	// the counts in a header are redundant copies: a header decoded from an old record (field absent = 0) or taken from a
+	// peer need not agree with the stored transaction list, and no accessor may answer from the copy instead of the record
+	hdrTxs, hdrEvs := uint64(ntx), evCount
+	if classify && rapid.IntRange(0, 7).Draw(rt, "staleCounts") == 0 {
+		hdrTxs = uint64(rapid.SampledFrom([]int{0, 0, ntx + 1, max(ntx-1, 0), 1000}).Draw(rt, "hdrTxs"))
+		hdrEvs = uint64(rapid.SampledFrom([]int{0, int(evCount) + 1, 7}).Draw(rt, "hdrEvs"))
+		c.Label("header-counts-differ-from-the-stored-lists")
+	}
+	h := arbitraryHeader(rt, num, hdrTxs, hdrEvs)
 	h.EventsBloom = core.EventsBloom(rcs)
 	b := ch.Draw(rt) // for a state diff with every section possibly populated
 	// the feeder adapter stores a contract listed with no changed slot as an entry with an empty slot map, and the
